@@ -9,6 +9,8 @@ import Osmium.Lemmas.CxxSem
 import Osmium.Model.Order
 import Osmium.Model.Area
 import Osmium.Model.Stash
+import Osmium.Model.Buf
+import Osmium.Model.RelMgr
 
 set_option Elab.async false
 
@@ -38,6 +40,24 @@ theorem positive_id_eq (o : Src.Object.OSMObject) (h : Src.Object.OSMObject.type
   unfold Src.Object.OSMObject.positive_id
   apply wrapU_eq <;> omega
 
+/-! ### C16: `CheckOrder` (a translated state transformer, tools/x2l_st.py) -/
+
+/-- the six members of a translated `handler::CheckOrder` as the model's state -/
+def checkOfSrc (s : Src.CheckOrder.CheckOrder) : Order.CheckState :=
+  { maxNode := s.m_max_node_id, maxWay := s.m_max_way_id, maxRel := s.m_max_relation_id,
+    hasNode := s.m_has_node, hasWay := s.m_has_way, hasRel := s.m_has_relation }
+
+/-- outcome of a translated `CheckOrder::node/way/relation` call in the model's terms:
+    a normal return is `some` new state, an exception is `none` -/
+def checkResult (o : Outcome Src.CheckOrder.CheckOrder Unit) : Option Order.CheckState :=
+  match o with
+  | .normal s _ => some (checkOfSrc s)
+  | _ => none
+
+/-- the only way such a call ends abnormally: `out_of_order_error` with the object left as it was -/
+def ThrowsOutOfOrder (o : Outcome Src.CheckOrder.CheckOrder Unit) (s : Src.CheckOrder.CheckOrder) : Prop :=
+  o ≠ .nofuel ∧ ∀ e s', o = .thrown e s' → e = "osmium::out_of_order_error" ∧ s' = s
+
 /-! ### C10: `Location`, `vec`, `NodeRefSegment` -/
 
 def vecOfLoc (l : Src.Location.Location) : Area.Vec := ⟨l.m_x, l.m_y⟩
@@ -47,6 +67,37 @@ def vecOfSrc (v : Src.Vector.vec) : Area.Vec := ⟨v.x, v.y⟩
 /-- `NodeRefSegment` reduced to the two locations (Model/Area.lean `Seg`) -/
 def segOfSrc (s : Src.NodeRefSegment.NodeRefSegment) : Area.Seg :=
   ⟨vecOfLoc s.m_first.m_location, vecOfLoc s.m_second.m_location⟩
+
+/-! ### C04: the counters of `memory::Buffer` -/
+
+/-- numeric value of `Buffer::auto_grow` (the enumerator the translated code compares with is the generated one) -/
+def modeCode : Buf.Mode → Int
+  | .no => 0
+  | .yes => 1
+  | .internal => Src.Buffer.Buffer.auto_grow.internal
+
+/-- a translated `Buffer` object (capacity / written / committed counters and the growth mode — the members in
+    the translated subset; the memory itself is not) represents the model buffer `b` -/
+def BufRep (s : Src.Buffer.Buffer) (b : Buf.Buf) : Prop :=
+  s.m_capacity = (b.cap : Int) ∧ s.m_written = (b.written : Int) ∧ s.m_committed = (b.committed : Int) ∧
+  s.m_auto_grow = modeCode b.mode
+
+/-! ### C11: `MembersDatabaseCommon::element` -/
+
+/-- a translated `element` as the model's `Elem`: `member_num == removed_value` (SIZE_MAX) is `num = none` -/
+def elemOfSrc (e : Src.MembersDatabase.MembersDatabaseCommon.element) : RelMgr.Elem :=
+  { mid := e.member_id,
+    num := if e.member_num = Src.MembersDatabase.MembersDatabaseCommon.element.removed_value then none else some e.member_num.toNat,
+    rpos := e.relation_pos.toNat, h := e.object_handle.value.toNat }
+
+/-! ### C01/C04: scalar representations -/
+
+/-- the value of a byte as a C++ `char` (signed on the platforms the library is checked on) -/
+def charOfByte (c : Nat) : Int := if c < 128 then (c : Int) else (c : Int) - 256
+
+/-- the 32-bit word that holds the bit-fields `m_deleted : 1` (bit 0) and `m_version : 31` of an `OSMObject`
+    (Itanium ABI layout on little-endian targets; the differential harness of C04 reads the real bytes) -/
+def versionWord (o : Src.Object.OSMObject) : Int := ofBool o.m_deleted + 2 * o.m_version
 
 /-! ### C15: `ItemStash` -/
 
